@@ -37,6 +37,7 @@ struct Ctx
 {
   bool head = false;
   uint64_t capSpec = 0; // 0 = library default, UINT64_MAX = raised to SIZE_MAX, else that many bytes
+  bool neverComplete = false; // generator knows the stream is unterminated (family E, GET): part of the case text
   std::string capName() const
   {
     return capSpec == 0 ? "default" : capSpec == UINT64_MAX ? "max" : std::to_string(capSpec);
@@ -103,7 +104,8 @@ struct Seg
 
 std::string caseText(const Ctx &c, const Seg &s, const std::string &streamHex)
 {
-  return std::string("C15c1 ") + (c.head ? "HEAD" : "GET") + " cap=" + c.capName() + " seg=" + s.text() + " stream=" + streamHex;
+  return std::string("C15c1 ") + (c.head ? "HEAD" : "GET") + " cap=" + c.capName() + (c.neverComplete ? " nc=1" : "") + " seg=" + s.text() +
+         " stream=" + streamHex;
 }
 
 bool parseCase(const std::string &t, Ctx &c, Seg &s, std::string &stream)
@@ -122,6 +124,7 @@ bool parseCase(const std::string &t, Ctx &c, Seg &s, std::string &stream)
   c.head = t.compare(6, 4, "HEAD") == 0;
   std::string cap = field("cap");
   c.capSpec = cap == "default" ? 0 : cap == "max" ? UINT64_MAX : strtoull(cap.c_str(), nullptr, 10);
+  c.neverComplete = field("nc") == "1";
   std::string sg = field("seg");
   if (sg == "unsplit")
     s.kind = Seg::Unsplit;
@@ -162,6 +165,7 @@ struct Plan
   bool pairs = false;           // every pair of cuts
   std::vector<size_t> nearCuts; // if !singles: only these cut offsets
   std::vector<size_t> every;    // uniform segment sizes
+  bool skip = false;            // outside this part's window: not evaluated, not counted
   bool neverComplete = false;   // generator knows the stream is unterminated by construction
   const char *family = "?";
   const char *kind = "";
@@ -232,7 +236,7 @@ struct Engine
   void eval(const Ctx &ctx, const std::string &stream, const Plan &plan, const Intent &intent = Intent())
   {
     ++streamSeq;
-    if (stop)
+    if (stop || plan.skip)
       return;
     uint64_t h = fnv(stream, fnv(ctx.capName() + (ctx.head ? "H" : "G")));
     if (int(h % uint64_t(sh.W)) != sh.w)
@@ -252,7 +256,15 @@ struct Engine
       return;
     }
     const uint64_t cap = clients.effectiveCap(ctx.capSpec);
-    const c15ref::Result ref = c15ref::frame(stream, ctx.head, cap);
+    c15ref::Result ref = c15ref::frame(stream, ctx.head, cap);
+    if (stream.size() > cap && ref.verdict == Verdict::MustEqual)
+    {
+      // The cap bounds ALL received bytes (headers + body + whatever else the same reads carry), so a
+      // valid message inside a stream longer than the cap may legitimately end in the limit error,
+      // depending on where the reads fall.  Framing it is fine too - but then it must be exact.
+      ref.verdict = Verdict::Either;
+      ref.why = "ok:stream-exceeds-cap";
+    }
     const std::string hexs = vr::hex(stream);
     ++rep.counters[std::string("streams_family_") + plan.family];
     ++rep.counters["streams"];
@@ -534,14 +546,22 @@ Built assemble(const StatusForm &sf, const std::vector<Line> &set, const std::ve
 
 struct Limits
 {
-  size_t pairMaxLen;
+  size_t pairMinLen = 0; // pairs for streams with pairMinLen < length <= pairMaxLen
+  size_t pairMaxLen = 0;
+  bool pairsOnly = false; // the "pairs" part: nothing but (unsplit +) all cut pairs, streams outside the window skipped
 };
 
 Plan fullPlan(const char *family, size_t len, const Limits &lim)
 {
   Plan p;
   p.family = family;
-  p.pairs = len <= lim.pairMaxLen;
+  p.pairs = len > lim.pairMinLen && len <= lim.pairMaxLen;
+  if (lim.pairsOnly)
+  {
+    p.bytes = false;
+    p.singles = false;
+    p.skip = !p.pairs;
+  }
   return p;
 }
 
@@ -590,7 +610,7 @@ void familyA(Engine &E, bool thorough, const Limits &lim, std::vector<std::pair<
                   continue;
                 // a bodiless response carries its length fields but no content
                 std::string payload = rule1 ? "" : body;
-                bool either = fr.either;
+                bool either = fr.either && !(rule1 && fr.kind == 2); // rule 1 ignores the coding altogether
                 Built b = assemble(sf, sets[si], fr.lines, first != 0, payload, payload, closeDelim, either, sp);
                 Ctx ctx;
                 ctx.head = head != 0;
@@ -619,7 +639,10 @@ void familyB(Engine &E, bool thorough, const Limits &lim, std::vector<std::pair<
   std::vector<std::vector<Line>> sets = {{}, {L("Server: x")}};
   std::vector<std::string> bods = {"", "a", "hello", "0\r\n\r\n"};
   if (thorough)
-    bods.push_back("hello, world"); // 12 bytes: chunk sizes with hex letters
+  {
+    bods.push_back("0123456789");                 // 10 bytes: chunk size "a"/"A" (partitions into <=2 chunks only)
+    bods.push_back("abcdefghijklmnopqrstuvwxyz"); // 26 bytes: chunk size "1a"/"1A" (one chunk only)
+  }
   // chunk-size spelling: 0 plain lower, 1 leading zeros, 2 upper case
   std::vector<std::string> exts = {"", ";x", ";x=y", " ; x = \"q;\\\"\t\""};
   std::vector<std::string> lasts = {"0", "000", "0;x=y"};
@@ -644,9 +667,9 @@ void familyB(Engine &E, bool thorough, const Limits &lim, std::vector<std::pair<
             else
             {
               parts.push_back({n});
-              for (size_t a = 1; a < n; ++a)
+              for (size_t a = 1; a < n && n <= 10; ++a)
                 parts.push_back({a, n - a});
-              for (size_t a = 1; a < n; ++a)
+              for (size_t a = 1; a < n && n <= 5; ++a)
                 for (size_t b2 = 1; a + b2 < n; ++b2)
                   parts.push_back({a, b2, n - a - b2});
             }
@@ -866,6 +889,7 @@ void familyE(Engine &E, bool thorough)
         Ctx ctx;
         ctx.head = head != 0;
         ctx.capSpec = cap;
+        ctx.neverComplete = pl.neverComplete;
         E.eval(ctx, k.stream, pl);
       }
   }
@@ -879,7 +903,10 @@ int main(int argc, char **argv)
   vr::Args args(argc, argv);
   const bool thorough = args.thorough();
   Limits lim;
-  lim.pairMaxLen = size_t(args.getInt("pair-max-len", thorough ? 140 : 56));
+  lim.pairsOnly = args.getInt("pairs-only", 0) != 0;
+  lim.pairMinLen = size_t(args.getInt("pair-min-len", 0));
+  lim.pairMaxLen = size_t(args.getInt("pair-max-len", thorough ? 80 : 56));
+  const std::string partName = lim.pairsOnly ? "C15_client_pairs" : "C15_client";
   double deadline = double(args.getInt("deadline", thorough ? 1500 : 240));
 
   if (!args.replay.empty())
@@ -896,6 +923,11 @@ int main(int argc, char **argv)
     Clients cl;
     uint64_t cap = cl.effectiveCap(ctx.capSpec);
     c15ref::Result ref = c15ref::frame(stream, ctx.head, cap);
+    if (stream.size() > cap && ref.verdict == Verdict::MustEqual)
+    {
+      ref.verdict = Verdict::Either;
+      ref.why = "ok:stream-exceeds-cap";
+    }
     printf("stream   : %s\n", vr::jstr(stream).c_str());
     printf("request  : %s   cap=%s (%llu)   segmentation=%s\n", ctx.head ? "HEAD" : "GET", ctx.capName().c_str(),
            (unsigned long long)cap, seg.text().c_str());
@@ -911,6 +943,8 @@ int main(int argc, char **argv)
              d.fedAtEnd, int(d.forceEvict), d.peakBuffered);
       std::vector<Finding> f;
       judge(d, ref, stream.size(), s.cuts, s.uniform(), cap, f);
+      if (ctx.neverComplete && d.outcome == Outcome::Complete)
+        f.push_back({"truncated-not-framed", "never-terminated", "unterminated stream framed as complete"});
       for (auto &x : f)
       {
         printf("  VIOLATES clause=%s sig=%s :: %s\n", x.clause.c_str(), x.sig.c_str(), x.detail.c_str());
@@ -925,8 +959,8 @@ int main(int argc, char **argv)
     return bad ? 1 : 0;
   }
 
-  std::string only = args.get("families", "ABCDE");
-  vr::run_sharded(args, "C15_client", "exploration", 15.0, deadline,
+  std::string only = args.get("families", lim.pairsOnly ? "ABC" : "ABCDE");
+  vr::run_sharded(args, partName, "exploration", 15.0, deadline,
                   [&](const vr::Shard &sh, vr::Report &rep)
                   {
                     rep.rule = "distinct (request method, cap, byte stream) cases for which the independent reference framer finds a "
@@ -936,11 +970,16 @@ int main(int argc, char **argv)
                     rep.bounds["request_methods"] = "GET, HEAD";
                     rep.bounds["status_forms"] = thorough ? "200, 204, 304, 100+200, 103+100+200, HTTP/1.0 200, 200 with empty reason, 404"
                                                           : "200, 204, 304, 100+200";
-                    rep.bounds["body_lengths"] = thorough ? "0,1,5 (4+2 contents incl. CRLF/terminator look-alikes), 12 for chunked" : "0,1,5";
+                    rep.bounds["body_lengths"] = thorough ? "0,1,5 (4+2 contents incl. CRLF/terminator look-alikes); chunked also 10 (<=2 chunks) and 26 (1 chunk)" : "0,1,5";
                     rep.bounds["chunking"] = "every composition of the body into <=3 chunks x size spelling {plain, leading zeros, upper "
                                              "hex} x extensions x last-chunk spellings x trailers";
-                    rep.bounds["segmentations"] = "unsplit, byte-at-a-time, every single cut, every pair of cuts for streams <= " +
-                                                  std::to_string(lim.pairMaxLen) + " bytes";
+                    rep.bounds["segmentations"] =
+                      lim.pairsOnly ? "unsplit + every pair of cuts, for streams of " + std::to_string(lim.pairMinLen + 1) + ".." +
+                                        std::to_string(lim.pairMaxLen) + " bytes (plain build; shorter streams get their pairs in the ASan part)"
+                                    : "unsplit, byte-at-a-time, every single cut; every pair of cuts for streams <= " +
+                                        std::to_string(lim.pairMaxLen) + " bytes; family D: " +
+                                        (thorough ? "every single cut" : "cuts at mutation offset +0/+1/+2") +
+                                        "; family E: every single cut + uniform reads of 2,3,7,8,63,64,65,cap-1,cap,cap+1";
                     rep.bounds["mutation_alphabet"] = "CR LF ':' SP '0' 'f' ';' NUL 0xff at every offset of the base streams";
                     rep.bounds["caps"] = thorough ? "default(16MiB), SIZE_MAX, 64, 256, 1024, 4096" : "default(16MiB), SIZE_MAX, 64, 256";
                     Engine E(sh, rep);
